@@ -493,7 +493,11 @@ func (p *StreamPool) newConnection(k key, s Stream, ts time.Time) (c *connection
 	}
 	index := len(p.free) - 1
 	c, p.free = p.free[index], p.free[:index]
+	// An assembler that looked the object up before it was closed may be
+	// about to check it: reset it under its own lock.
+	c.mu.Lock()
 	c.reset(k, s, ts)
+	c.mu.Unlock()
 	return c
 }
 
@@ -568,7 +572,9 @@ func (a *Assembler) AssembleWithTimestamp(netFlow gopacket.Flow, t *layers.TCP, 
 		}
 		verifYieldM(7, &conn.mu)
 		conn.mu.Lock()
-		if !conn.closed {
+		// The connection object can also have been closed and handed out
+		// again for another stream between the lookup and the lock.
+		if !conn.closed && conn.key == key {
 			break
 		}
 		conn.mu.Unlock()
